@@ -298,6 +298,18 @@ pub fn world_b_handshake(property: &str, scenario: &str, seed: u64, run: u64, th
     plan.push(0, 2, Op::Link { from: None, to: None, rule });
     if clean {
         plan.params.insert("handshake_link_clean".into(), 1.0);
+        // ... except that each handshake loses a few of its first datagrams (SYN, SYN-ACK or error,
+        // ACK): the retries must still complete it
+        for &c in topo.clients.iter() {
+            for link in [format!("{}>{}", c, 0), format!("{}>{}", 0, c)] {
+                let m = plan.fates.entry(link).or_default();
+                for ord in 0..3u64 {
+                    if r.chance(0.3) {
+                        m.insert(ord, Fate::dropped());
+                    }
+                }
+            }
+        }
     }
     let mut tag = 0u32;
     for (i, &c) in topo.clients.iter().enumerate() {
@@ -506,6 +518,18 @@ pub fn world_b_lifecycle(property: &str, scenario: &str, seed: u64, run: u64, th
                     }
                 }
             }
+            // stray handshake frames from the client's own address (duplicates, other nonces,
+            // foreign protocol versions) at any point of the connection's life
+            for _ in 0..r.range(0, 4) {
+                let t = r.range(t_create, life_end);
+                let bytes = match r.below(4) {
+                    0 => enc_syn(*r.pick(&[0u8, 2, 4, 255]), r.u32(), 2_000_000, 1000, 1_000_000, 1472),
+                    1 => enc_syn(3, r.u32(), 2_000_000, 1000, 1_000_000, 1472),
+                    2 => enc_syn(3, r.u32(), 2_000_000, 2_000_000_000, 10, 1472),
+                    _ => enc_hs_ack(r.u32()),
+                };
+                plan.push(t, 0x8000_0002, Op::Inject { to: 0, from: c, bytes, twin: false });
+            }
             if inc + 1 < incarnations {
                 plan.push(life_end, 1, Op::Destroy { ep: c });
                 t_create = life_end + r.range(100_000, 10_000_000);
@@ -551,17 +575,45 @@ pub fn world_b_limits(property: &str, scenario: &str, seed: u64, run: u64, thoro
     }
     let horizon = r.range(40, if thorough { 120 } else { 70 }) * 1_000_000;
     let burst_at = r.range(0, 1_000_000);
+    let burst2_at = r.range(horizon / 3, 2 * horizon / 3);
     let late = *topo.clients.last().unwrap();
     let mut last_end = 0u64;
     for &c in topo.clients.iter().take(n_clients) {
         // arrivals in bursts, some later
-        let t_create = if r.chance(0.6) { burst_at + r.below(latency / 2 + 1000) } else { r.range(0, horizon / 3) };
+        // ... and a second wave while connections of the first are ending or lingering
+        let t_create = match r.below(10) {
+            0..=4 => burst_at + r.below(latency / 2 + 1000),
+            5..=7 => burst2_at + r.below(latency / 2 + 1000),
+            _ => r.range(0, horizon / 3),
+        };
         plan.push(t_create, 1, Op::Create { ep: c });
-        plan.params.insert(format!("created_ep{}", c), 1.0);
         let cad = Cadence { period_us: r.range(5_000, 50_000), jitter: 0.3, stall_p: 0.0, stall_max_us: 0, flush_after_step_p: 0.0 };
         // how the connection ends
-        let t_end = t_create + r.range(3_000_000, horizon / 3);
-        let life = match r.below(5) {
+        let t_end = (t_create + r.range(3_000_000, horizon / 3)).min(horizon);
+        let ending = r.below(8);
+        if ending != 7 {
+            plan.params.insert(format!("created_ep{}", c), 1.0);
+        }
+        let life = match ending {
+            5 | 6 => {
+                // a disconnect by either side, and the application drops the (closing or
+                // closed, still tracked) entry shortly afterwards
+                if ending == 5 {
+                    plan.push(t_end, r.u32() | 1, Op::Disconnect { ep: c, to: None });
+                } else {
+                    plan.push(t_end, r.u32() | 1, Op::Disconnect { ep: 0, to: Some(c) });
+                }
+                plan.push(t_end + r.range(50_000, 5_000_000), r.u32() | 1, Op::ServerDrop { ep: 0, to: c });
+                horizon
+            }
+            7 => {
+                // abandoned handshake: the client vanishes right after its SYN
+                let t_gone = t_create + r.below(2 * latency + 1000);
+                plan.push(t_gone, 1, Op::Destroy { ep: c });
+                last_end = last_end.max(t_gone);
+                cad.steps(&mut r, &mut plan, c, t_create, t_gone.min(horizon), 8000, false);
+                continue;
+            }
             0 => {
                 plan.push(t_end, r.u32() | 1, Op::Disconnect { ep: c, to: None });
                 horizon
@@ -631,10 +683,34 @@ pub fn world_b_spoof(property: &str, scenario: &str, seed: u64, run: u64, thorou
     let sweep_base = 5 + ((run * 16) % 1467) as usize;
     for (k, &raw) in topo.raws.iter().enumerate() {
         plan.push(0, 1, Op::Create { ep: raw });
-        let n = r.range(1, 30);
+        let style = r.below(6);
+        // style 5: one valid SYN buys a pending entry, then a long burst of one kind of small
+        // stray frame arrives inside the handshake window (each may elicit at most nothing)
+        let n = if style == 5 { r.range(80, 400) } else { r.range(1, 30) };
         let mut t = r.range(0, 2_000_000);
-        let style = r.below(5);
+        let burst_kind = r.below(7);
         for j in 0..n {
+            if style == 5 {
+                let bytes = if j == 0 {
+                    enc_syn(3, 0x1234_5678 + k as u32, 2_000_000, 1000, 1_000_000, 1472)
+                } else {
+                    match burst_kind {
+                        0 => enc_hs_ack(r.u32()),
+                        1 => enc_disc(),
+                        2 => enc_disc_ack(),
+                        3 => enc_ack(r.u32(), r.u32() & 0xFFFFF, &[]),
+                        4 => enc_sync(None, None),
+                        5 => enc_syn(3, 0x1234_5678 + k as u32, 2_000_000, 1000, 1_000_000, 5 + r.below(40) as usize),
+                        _ => enc_data(r.u32(), false, &[]),
+                    }
+                };
+                plan.push(t, 0x8000_0002, Op::Inject { to: 0, from: raw, bytes, twin: false });
+                t += if j == 0 { r.range(1000, 200_000) } else { r.range(0, 60_000) };
+                if t >= horizon {
+                    break;
+                }
+                continue;
+            }
             let bytes = match if style == 4 { r.below(8) } else { style * 2 + r.below(2) } {
                 // valid full-size SYN, repeated with the same or a fresh nonce
                 0 | 1 => enc_syn(3, if r.chance(0.5) { 0x1234_5678 + k as u32 } else { r.u32() }, 2_000_000, 1000, 1_000_000, 1472),
@@ -941,11 +1017,12 @@ pub fn world_b_retry(property: &str, scenario: &str, seed: u64, run: u64, _thoro
             plan.push(0, 0, Op::Create { ep: 0 });
             plan.push(100, 3, Op::StepEvery { ep: 0, period_us: period_s, until_us: horizon });
             plan.push(1000, 1, Op::Create { ep: c });
-            let t_b = r.range(2_000_000, 6_000_000);
+            // sometimes very early: less than 2 s after the SYN, while handshake timers are still queued
+            let t_b = if r.chance(0.4) { r.range(200_000, 1_500_000) } else { r.range(2_000_000, 6_000_000) };
             let mut b = clean_rule(latency);
             b.blackout = true;
             plan.push(t_b, 3, Op::Link { from: None, to: None, rule: b });
-            let t_call = t_b + r.below(3_000_000);
+            let t_call = t_b + if t_b < 2_000_000 { r.below(300_000) } else { r.below(3_000_000) };
             if r.chance(0.5) {
                 plan.push(t_call, 0x6000_0000, Op::DisconnectNow { ep: c, to: None });
             } else {
